@@ -17,7 +17,7 @@ CVC5 = "/usr/bin/cvc5"
 
 
 class Obligation:
-    __slots__ = ("name", "status", "backend", "seconds", "model", "detail", "pc", "goal", "mode")
+    __slots__ = ("name", "status", "backend", "seconds", "model", "detail", "pc", "goal", "mode", "case", "symtab")
 
     def __init__(self, name, status, backend, seconds, model=None, detail="", mode="proof"):
         self.name = name
